@@ -293,3 +293,43 @@ OBLIGATIONS.append(Ob('previous_batches', ob_previous_batches, ['2 <= start <= 7
                       data='start 2..7, size 1..3, orphan 0..2, overlap < size', selectors='body reads previous-batches; unbounded iterator'))
 OBLIGATIONS.append(Ob('start_end_no_size', ob_start_end, ['1 <= start <= 5', '1 <= length <= 6', '0 <= orphan <= 2'], timeout=tier(280, 900),
                       data='start 1..5, window length 1..6 (end = start+length-1), orphan 0..2', selectors='start= and end= without size=; unbounded iterator'))
+
+
+# ---------------------------------------------------------------- wave 3: the SAME compiled tag rendered re-entrantly (recursive template)
+T_REC = cooked('<dtml-in it mapping start=st size=sz><dtml-call "rec(tag, v)"><dtml-if "kid is not None and v == at">'
+               '<dtml-call "T(None, _, it=kid, st=1, tag=tag + 1, kid=None)"></dtml-if>'
+               '<dtml-if sequence-end><dtml-call "rec2(tag, _[\'next-sequence\'])"></dtml-if></dtml-in>')
+
+
+def ob_reentrant(start: int, size: int, pos: int, kn: int, topn: int) -> bool:
+    """a recursive template: while the outer batched loop is at element `at` (any position of its window) the same template - the same
+    compiled dtml-in tag - renders the first batch of a child iterator. Both iterators obey the pull bound, both windows and both
+    next-sequence flags are their own."""
+    top = Counting(None if topn == 0 else start - 1 + size + topn - 1)     # unbounded, or ending exactly at / just after the window
+    kid = Counting(None if kn == 0 else kn)
+    at = start - 1 + pos
+    shown, flags = [], []
+    try:
+        T_REC(T=T_REC, it=top, st=start, sz=size, tag=0, kid=kid, at=at, rec=lambda t, v: shown.append((t, v)), rec2=lambda t, f: flags.append((t, bool(f))))
+    except PullCap:
+        return False
+    kn_eff = size if kn == 0 else min(size, kn)
+    exp = []
+    for v in range(start - 1, start - 1 + size):
+        exp.append((0, v))
+        if v == at:
+            exp += [(1, j) for j in range(kn_eff)]
+    if shown != exp:
+        return False
+    top_more = topn != 1
+    kid_more = kn == 0 or kn > size
+    if sorted(flags) != sorted([(0, top_more), (1, kid_more)]):
+        return False
+    if not in_order(top.pulled) or not in_order(kid.pulled):
+        return False
+    return len(top.pulled) <= start - 1 + size + size and len(kid.pulled) <= size + size
+
+
+OBLIGATIONS.append(Ob('reentrant_same_tag', ob_reentrant, ['1 <= start <= 3', '1 <= size <= 3', '0 <= pos < size', '0 <= kn <= 4', '0 <= topn <= 2'], timeout=tier(280, 900),
+                      data='start 1..3, size 1..3, position of the recursing element inside the window, child length (0 = unbounded, 1..4), outer iterator unbounded / ending with the window / one element after it',
+                      selectors='template that calls itself from inside its own batched dtml-in (two iterators, one compiled tag)'))
